@@ -420,8 +420,8 @@ func (vc *VC) header() string {
 		sb.WriteString(d)
 		sb.WriteString("\n")
 	}
-	if len(sentinels[vc]) > 0 {
-		for _, s := range sentinels[vc] {
+	if sl := vc.sentinelList(); len(sl) > 0 {
+		for _, s := range sl {
 			fmt.Fprintf(&sb, "(assert (> %s 0))\n", s)
 			if _, ok := vc.db.Sigs["is_io_error"]; ok {
 				fmt.Fprintf(&sb, "(assert (not (is_io_error %s)))\n", s)
